@@ -3,7 +3,8 @@ from __future__ import annotations
 
 from cfdppy.handler.source import TransactionStep as SStep
 from cfdppy.mib import DefaultFaultHandlerBase
-from spacepackets.cfdp import ChecksumType, ConditionCode, FaultHandlerCode
+from spacepackets.cfdp import ChecksumType, ConditionCode, FaultHandlerCode, TransactionId
+from spacepackets.util import UnsignedByteField
 from spacepackets.cfdp.pdu.finished import DeliveryCode
 
 from vf import hdst, hsrc, rigs, symex
@@ -297,11 +298,32 @@ def set_handler_refuses():
         def notice_of_cancellation_cb(self, *a): pass
         def abandoned_cb(self, *a): pass
         def ignore_cb(self, *a): pass
-    f = F()
     bad = []
     n = 0
+    # the documented table (CFDP fault conditions); independent of what the object answers when asked
+    table = {CC.CANCEL_REQUEST_RECEIVED, CC.POSITIVE_ACK_LIMIT_REACHED, CC.KEEP_ALIVE_LIMIT_REACHED,
+             CC.INVALID_TRANSMISSION_MODE, CC.FILE_CHECKSUM_FAILURE, CC.FILE_SIZE_ERROR, CC.FILESTORE_REJECTION,
+             CC.NAK_LIMIT_REACHED, CC.INACTIVITY_DETECTED, CC.CHECK_LIMIT_REACHED, CC.UNSUPPORTED_CHECKSUM_TYPE}
     for c in CC:
-        inside = f.get_fault_handler(c) is not None
+        inside = c in table
+        for read_first in (False, True):
+            # an application may read the table (e.g. to log it) before configuring it
+            f = F()
+            if read_first:
+                for c2 in CC:
+                    f.get_fault_handler(c2)
+            try:
+                f.report_fault(TransactionId(UnsignedByteField(1, 1), UnsignedByteField(1, 1)), c, 0)
+                if not inside:
+                    bad.append(f"report_fault accepted {c.name}" + (" after the table was read" if read_first else ""))
+            except ValueError:
+                if inside:
+                    bad.append(f"report_fault refused {c.name}")
+        f = F()
+        for c2 in CC:
+            f.get_fault_handler(c2)
+        if (f.get_fault_handler(c) is not None) != inside:
+            bad.append(f"get_fault_handler({c.name}) disagrees with the documented table")
         for code in FaultHandlerCode:
             n += 1
             try:
